@@ -42,8 +42,29 @@ fn main() {
     let part = arg(&args, "--part").expect("--part");
     let tier = arg(&args, "--tier").unwrap_or("quick".into());
     let only = arg(&args, "--only");
-    let parts: Vec<grid::Grid> = match part.as_str() {
-        "c05" => c05::run(&tier, only.as_deref()),
+    if let Some(c) = arg(&args, "--crash-file") {
+        vrt::crash::install(&c);
+    }
+    let parts = std::panic::catch_unwind(std::panic::AssertUnwindSafe(|| run_part(&part, &tier, only.as_deref())));
+    let parts = match parts {
+        Ok(p) => p,
+        Err(e) => {
+            // a panic of the harness itself (outside every catch): contents it relied on were damaged
+            let m = e.downcast_ref::<String>().cloned().or_else(|| e.downcast_ref::<&str>().map(|s| s.to_string())).unwrap_or_default();
+            vrt::crash::report_and_exit(&format!("engine panic: {}", m.lines().next().unwrap_or("")));
+        }
+    };
+    let j = J::A(parts.iter().map(|g| g.to_json()).collect());
+    match arg(&args, "--out") {
+        Some(f) => std::fs::write(f, j.dump()).unwrap(),
+        None => println!("{}", j.dump()),
+    }
+}
+
+fn run_part(part: &str, tier: &str, only: Option<&str>) -> Vec<grid::Grid> {
+    let tier = tier.to_string();
+    let parts: Vec<grid::Grid> = match part {
+        "c05" => c05::run(&tier, only),
         "c06" => c06::run(&tier),
         "c07" => c07::run(&tier),
         "c15" => c15::run(&tier),
@@ -56,9 +77,5 @@ fn main() {
         "c14" => c14::run(&tier, std::env::var("VERIF_SEED").ok().and_then(|s| s.parse().ok()).unwrap_or(0)),
         _ => panic!("unknown part"),
     };
-    let j = J::A(parts.iter().map(|g| g.to_json()).collect());
-    match arg(&args, "--out") {
-        Some(f) => std::fs::write(f, j.dump()).unwrap(),
-        None => println!("{}", j.dump()),
-    }
+    parts
 }
